@@ -247,5 +247,24 @@ mod verif_capi_lib_oxide {
         kani::cover!(flush == 4 && CONSUMED.load(Relaxed) > 0, "COV:capi.deflate_progress");
     }
 
+    /// mz_deflate_reset_oxide: the C-visible fields afterwards are the ones mz_deflate_init2_oxide leaves (counters 0,
+    /// buffers detached, checksum field = Adler-32 of nothing = 1); the compressor itself is reset through
+    /// CompressorOxide::reset (own contract: K-reset), replaced here by a recording model
+    static RESET_CALLS: AtomicUsize = AtomicUsize::new(0);
+    fn model_compressor_reset(this: &mut CompressorOxide) { RESET_CALLS.fetch_add(1, Relaxed); }
+    #[kani::proof]
+    #[kani::unwind(10)]
+    #[kani::stub(CompressorOxide::reset, model_compressor_reset)]
+    fn k_capi_deflate_reset_fields() {
+        let mut so: StreamOxide<Compressor> = StreamOxide { next_in: None, total_in: kani::any(), next_out: None, total_out: kani::any(),
+            state: Some(Box::new(InternalState::Deflate(Box::default()))), adler: kani::any(), state_type: std::marker::PhantomData };
+        let rr = mz_deflate_reset_oxide(&mut so);
+        assert!(matches!(rr, Ok(MZStatus::Ok)) && so.state.is_some(), "OBL:capi.deflate_reset_ok_keeps_the_compressor [C18 C17]");
+        assert!(so.total_in == 0 && so.total_out == 0 && so.next_in.is_none() && so.next_out.is_none(), "OBL:capi.deflate_reset_clears_counters_and_buffers [C18 C17]");
+        assert!(so.adler == MZ_ADLER32_INIT, "OBL:capi.deflate_reset_checksum_field_as_after_init [C18 C16]");
+        let mut none: StreamOxide<Compressor> = StreamOxide { next_in: None, total_in: 0, next_out: None, total_out: 0, state: None, adler: 0, state_type: std::marker::PhantomData };
+        assert!(matches!(mz_deflate_reset_oxide(&mut none), Err(MZError::Stream)), "OBL:capi.deflate_reset_without_state_is_stream_error [C17]");
+    }
+
     //@PLAYBACK@
 }
